@@ -84,6 +84,37 @@ var tests = []litmus{
 		})
 		vsched.GoQuiet("send", func() { vsched.Select(true, vsched.Send(ch)) })
 	}},
+	{"newtimer-vs-done-channel", []string{"done at 500ms"}, false, func(e *vsched.Exec, out *[]string, v *vsched.Var) {
+		done := make(chan struct{})
+		vsched.GoQuiet("waiter", func() {
+			t := vsched.NewTimer(time.Second)
+			switch vsched.Select(false, vsched.Recv(done), vsched.Recv(t.C)) {
+			case 0:
+				t.Stop()
+				vsched.Sleep(5 * time.Second)
+				if vsched.Select(true, vsched.Recv(t.C)) == 0 {
+					rec(out, v, "stopped timer fired")
+					return
+				}
+				rec(out, v, "done at 500ms")
+			case 1:
+				rec(out, v, "timeout")
+			}
+		})
+		vsched.GoQuiet("closer", func() { vsched.Sleep(time.Second / 2); vsched.Close(done) })
+	}},
+	{"newtimer-stopped-never-fires-reset-fires", []string{"stopped=true fired-after-reset at 5s"}, false, func(e *vsched.Exec, out *[]string, v *vsched.Var) {
+		t := vsched.NewTimer(time.Second)
+		was := t.Stop()
+		vsched.Sleep(2 * time.Second)
+		if vsched.Select(true, vsched.Recv(t.C)) == 0 {
+			rec(out, v, "stopped timer fired")
+			return
+		}
+		t.Reset(3 * time.Second)
+		vsched.Select(false, vsched.Recv(t.C))
+		rec(out, v, fmt.Sprintf("stopped=%v fired-after-reset at %v", was, e.Clock()))
+	}},
 	{"select-two-ready-cases", []string{"0", "1"}, false, func(e *vsched.Exec, out *[]string, v *vsched.Var) {
 		a, b := make(chan struct{}, 1), make(chan struct{}, 1)
 		vsched.SendStmt(a)
